@@ -165,5 +165,72 @@ def expectedUnsafe : List (Nat × UnsafeClass × String) := [
   (17778396692100917344, .ownerOnce, "bytes.rs | from_owner | body | let owned=Box::into_raw(Box::new(Owned{lifetime:OwnedLifetime{ref_cnt:AtomicUsize::new(1),drop:owned_box_and_drop::<T>,},owner,}));let mut ret=Bytes{ptr:NonNull::danglin")
 ]
 
+/-- vtable slots, the vtable each constructor / conversion installs, and the representation constants that Model/Core.lean,
+Model/Buf.lean and Model/BufMut.lean were written from (reviewed; compared with the extraction by Cert/C01) -/
+def expectedWiring : List (Nat × String) := [
+  (16463810848311584297, "bytes.rs | vtable | STATIC_VTABLE.clone | static_clone"),
+  (18346411487343524818, "bytes.rs | vtable | STATIC_VTABLE.into_vec | static_to_vec"),
+  (8895228960958382090, "bytes.rs | vtable | STATIC_VTABLE.into_mut | static_to_mut"),
+  (1457280334671004951, "bytes.rs | vtable | STATIC_VTABLE.is_unique | static_is_unique"),
+  (13281203959660772441, "bytes.rs | vtable | STATIC_VTABLE.drop | static_drop"),
+  (14253687876684160967, "bytes.rs | vtable | OWNED_VTABLE.clone | owned_clone"),
+  (1722649728050489602, "bytes.rs | vtable | OWNED_VTABLE.into_vec | owned_to_vec"),
+  (17686200247125150634, "bytes.rs | vtable | OWNED_VTABLE.into_mut | owned_to_mut"),
+  (2442727709008823351, "bytes.rs | vtable | OWNED_VTABLE.is_unique | owned_is_unique"),
+  (12770611827574577309, "bytes.rs | vtable | OWNED_VTABLE.drop | owned_drop"),
+  (3573868468986136065, "bytes.rs | vtable | PROMOTABLE_EVEN_VTABLE.clone | promotable_even_clone"),
+  (1611784616560995806, "bytes.rs | vtable | PROMOTABLE_EVEN_VTABLE.into_vec | promotable_even_to_vec"),
+  (790935532108536742, "bytes.rs | vtable | PROMOTABLE_EVEN_VTABLE.into_mut | promotable_even_to_mut"),
+  (10805333906980620510, "bytes.rs | vtable | PROMOTABLE_EVEN_VTABLE.is_unique | promotable_is_unique"),
+  (11542030736428040841, "bytes.rs | vtable | PROMOTABLE_EVEN_VTABLE.drop | promotable_even_drop"),
+  (5561144728322732705, "bytes.rs | vtable | PROMOTABLE_ODD_VTABLE.clone | promotable_odd_clone"),
+  (2084905218047458172, "bytes.rs | vtable | PROMOTABLE_ODD_VTABLE.into_vec | promotable_odd_to_vec"),
+  (2577007736077078140, "bytes.rs | vtable | PROMOTABLE_ODD_VTABLE.into_mut | promotable_odd_to_mut"),
+  (16775063659263678545, "bytes.rs | vtable | PROMOTABLE_ODD_VTABLE.is_unique | promotable_is_unique"),
+  (650416681569598503, "bytes.rs | vtable | PROMOTABLE_ODD_VTABLE.drop | promotable_odd_drop"),
+  (9579267399163553949, "bytes.rs | vtable | SHARED_VTABLE.clone | shared_clone"),
+  (12206612869830403340, "bytes.rs | vtable | SHARED_VTABLE.into_vec | shared_to_vec"),
+  (1620385971847842876, "bytes.rs | vtable | SHARED_VTABLE.into_mut | shared_to_mut"),
+  (10858675430549381095, "bytes.rs | vtable | SHARED_VTABLE.is_unique | shared_is_unique"),
+  (17864137936539534299, "bytes.rs | vtable | SHARED_VTABLE.drop | shared_drop"),
+  (7492058314917823982, "bytes.rs | mentions | from_static | STATIC_VTABLE"),
+  (7492058314917823982, "bytes.rs | mentions | from_static | STATIC_VTABLE"),
+  (11838930114056416605, "bytes.rs | mentions | new_empty_with_ptr | STATIC_VTABLE"),
+  (17850433225888343972, "bytes.rs | mentions | from_owner | OWNED_VTABLE"),
+  (9819807143754233647, "bytes.rs | mentions | truncate | PROMOTABLE_EVEN_VTABLE"),
+  (1083695633967479452, "bytes.rs | mentions | truncate | PROMOTABLE_ODD_VTABLE"),
+  (7105950485434642332, "bytes.rs | mentions | from | SHARED_VTABLE"),
+  (1160115500391432617, "bytes.rs | mentions | from | PROMOTABLE_EVEN_VTABLE"),
+  (17936581701712640646, "bytes.rs | mentions | from | PROMOTABLE_ODD_VTABLE"),
+  (13052308915238288201, "bytes.rs | mentions | owned_clone | OWNED_VTABLE"),
+  (14825243011352899593, "bytes.rs | mentions | shallow_clone_arc | SHARED_VTABLE"),
+  (15090094597375069079, "bytes.rs | mentions | shallow_clone_vec | SHARED_VTABLE"),
+  (7968006968402122509, "bytes.rs | const | KIND_ARC | 0b0"),
+  (1558485129992651248, "bytes.rs | const | KIND_VEC | 0b1"),
+  (5725280099572477308, "bytes.rs | const | KIND_MASK | 0b1"),
+  (6792022779472899875, "bytes_mut.rs | vtable | SHARED_VTABLE.clone | shared_v_clone"),
+  (8763189366275969844, "bytes_mut.rs | vtable | SHARED_VTABLE.into_vec | shared_v_to_vec"),
+  (12706928638406202732, "bytes_mut.rs | vtable | SHARED_VTABLE.into_mut | shared_v_to_mut"),
+  (3899029881053025457, "bytes_mut.rs | vtable | SHARED_VTABLE.is_unique | shared_v_is_unique"),
+  (9966601562205008867, "bytes_mut.rs | vtable | SHARED_VTABLE.drop | shared_v_drop"),
+  (6977342542669578640, "bytes_mut.rs | mentions | freeze | SHARED_VTABLE"),
+  (17586150313195353949, "bytes_mut.rs | mentions | shared_v_clone | SHARED_VTABLE"),
+  (2642181356597962024, "bytes_mut.rs | const | KIND_ARC | 0b0"),
+  (2323160633597753801, "bytes_mut.rs | const | KIND_VEC | 0b1"),
+  (15982117591115951879, "bytes_mut.rs | const | KIND_MASK | 0b1"),
+  (15291711449716087469, "bytes_mut.rs | const | MAX_ORIGINAL_CAPACITY_WIDTH | 17"),
+  (2238507681581983742, "bytes_mut.rs | const | MIN_ORIGINAL_CAPACITY_WIDTH | 10"),
+  (15328172950041089937, "bytes_mut.rs | const | ORIGINAL_CAPACITY_MASK | 0b11100"),
+  (1691315646632786011, "bytes_mut.rs | const | ORIGINAL_CAPACITY_OFFSET | 2"),
+  (6798312876248133471, "bytes_mut.rs | const | VEC_POS_OFFSET | 5"),
+  (375875770973369238, "bytes_mut.rs | const | MAX_VEC_POS | usize::MAX>>VEC_POS_OFFSET"),
+  (1635030654282153696, "bytes_mut.rs | const | NOT_VEC_POS_MASK | 0b11111"),
+  (11654189204049741149, "bytes_mut.rs | const | PTR_WIDTH@target_pointer_width=\"64\" | 64"),
+  (6617011753291261089, "bytes_mut.rs | const | PTR_WIDTH@target_pointer_width=\"32\" | 32"),
+  (15879946339755803064, "buf/take.rs | const | LEN | 16"),
+  (16414144775267642627, "buf/buf_mut.rs | const | chunk_mut.reserve | 64"),
+  (1464157798462611967, "bytes_mut.rs | const | chunk_mut.reserve | 64")
+]
+
 end BytesVerif.Sites
 
